@@ -493,7 +493,7 @@ def run(ck):
         "model_vs_impl": cnt, "impl_vs_oracle": orc,
         "model_vs_oracle": {"compared": 0, "disagree": 0, "note": "the oracle is an ungated scan of the implementation; the model's reader result is compared with the implementation's in model_vs_impl"},
         "distribution": summarize_distribution(traces),
-        "exhaustive": exh,
+        "exhaustive_templates": exh,
     })
     return ck.finish(level="proof", trusted_base=TRUSTED)
 
